@@ -126,6 +126,10 @@ PreGenesis ==
     ntx |-> 0, next |-> 0, nro |-> 0, nexp |-> 0, blocks |-> 0, ncrash |-> 0,
     \* the state as of the last Commit (<< >> before the first one): what a crashed node reopens with
     snap |-> << >>,
+    \* the answers to every kind of query as of the last Commit (opaque digests supplied by the trace; the
+    \* specification only says that an answer is a function of the committed state: it does not change
+    \* until the next Commit, whatever the block in progress has written)
+    qans |-> << >>,
     \* digests of the real stores (auth store; all other stores); only the trace monitor sets them
     dAuth |-> "", dRest |-> "",
     minted |-> 0, burned |-> 0, donated |-> 0, fees |-> 0,
@@ -537,7 +541,7 @@ ExportImport(s) ==
                       !.awardQ = [a \in Accts |-> 0], !.burnQ = [v \in Users |-> -1],
                       !.lastUpd = upd, !.updOk = TRUE,
                       !.vs = << [v \in Users |-> 0], set, set >>,
-                      !.jailedNow = {}, !.slashLog = << >>, !.snap = << >>]
+                      !.jailedNow = {}, !.slashLog = << >>, !.snap = << >>, !.qans = << >>]
   \* observation on the code as it is: ExportGenesis writes out every validator record, InitGenesis refuses
   \* an unstaked one - a chain on which a forced unstake left an Unstaked record cannot be restarted from its export
   IN IF \E v \in gv : s.val[v].status = Unstaked THEN [s1 EXCEPT !.halt = "genesis-unstaked-validator"]
